@@ -1,0 +1,12 @@
+//go:build verif
+
+package store
+
+// VerifSetDeleteParallelThreshold lowers (or restores) the range size from which DeleteRange takes
+// the parallel path, so that the conformance harness reaches it with a handful of headers.
+// It returns the previous value.
+func VerifSetDeleteParallelThreshold(n uint64) uint64 {
+	old := deleteRangeParallelThreshold
+	deleteRangeParallelThreshold = n
+	return old
+}
